@@ -144,9 +144,9 @@ def bounded(ctx):
     native.install_log_shim()
     logging.disable(logging.CRITICAL)
     quick = ctx["tier"] == "quick"
-    B = Bounded(ctx, rule="19 operations (create json/yaml/with files, parse, mpi, cache from envelope (3+ dependency envelopes) / from payloads, image boot with defaults and with a "
+    B = Bounded(ctx, rule="22 operations (create json/yaml/with files/with short hex payloads, parse incl. hierarchical YAML of hierarchies with different dependency names, mpi, cache from envelope (3+ dependency envelopes) / from payloads, image boot with defaults and with a "
                           "configuration file rewritten between operations, image update) run (a) each in a fresh interpreter under PYTHONHASHSEED in {0, 1, 4242, random} and "
-                          "from another working directory, (b) in seeded permutations inside ONE interpreter; all outputs must be byte-identical to the fresh-interpreter "
+                          "from another working directory that holds decoy files named like strings of the descriptions, (b) in seeded permutations inside ONE interpreter; all outputs must be byte-identical to the fresh-interpreter "
                           "reference; JSON and YAML renderings must give identical envelopes; distinct by (operation, seed/cwd) and by permutation",
                 bound=f"{3 if quick else 12} permutations of all operations in-process; 4 hash seeds (quick: 3) x 19 operations in fresh interpreters", budget_s=150 if quick else 900)
     work = B.fresh_dir("work")
@@ -172,6 +172,11 @@ def bounded(ctx):
             continue
         ref[name] = res
     other = B.fresh_dir("othercwd")
+    # decoy files in the other working directory, named like strings that occur in the descriptions (inline hex payloads, names):
+    # with every input given by absolute path the working directory must not matter
+    for decoy in ("C0FFEE", "AB", "00", "M", "fw.bin", "d0.json", "kconfig", "cose-alg-sha-256"):
+        with open(os.path.join(other, decoy), "wb") as fh:
+            fh.write(b"decoy file content \x00\x01")
     for seed in ([1, "random"] if quick else [1, 4242, "random"]):
         for name in names:
             if name not in ref or B.out_of_time():
